@@ -99,7 +99,7 @@ def spendableP2PK (env : Env) (s : Secret) (m : Msg) (w : Witness) : Prop :=
 
 /-- NUT-14: the preimage opens the hash lock `data` (64 hex characters = 32 bytes). -/
 def Opens (env : Env) (preimage data : String) : Prop :=
-  data.length = 64 ∧ ∃ bytes, hexDecode preimage = some bytes ∧ env.sha256hex bytes = data
+  data.utf8ByteSize = 64 ∧ ∃ bytes, hexDecode preimage = some bytes ∧ env.sha256hex bytes = data
 
 /-- NUT-14: when the HTLC proof is spendable. -/
 def spendableHTLC (env : Env) (s : Secret) (m : Msg) (w : Witness) : Prop :=
@@ -158,7 +158,7 @@ def decideP2PK (env : Env) (s : Secret) (m : Msg) (w : Witness) : Bool :=
          canSign env.valid m w.signatures (k :: (if c.nSigs > 0 then c.pubkeys else [])) (max 1 c.nSigs))
 
 def opensB (env : Env) (preimage data : String) : Bool :=
-  decide (data.length = 64) &&
+  decide (data.utf8ByteSize = 64) &&
   (match hexDecode preimage with
    | some bytes => decide (env.sha256hex bytes = data)
    | none => false)
